@@ -285,8 +285,7 @@ pub fn run(ctx: &mut Ctx) {
             }
         }
     }
-    // TEMPORARILY off until the data-path model follows repair 0a2b38f (see DESIGN.md Appendix E)
-    // super::c06_datapath::run(ctx);
+    super::c06_datapath::run(ctx);
 }
 
 fn case(file: &[u8], l: usize, flags: u8, path: u8, name: &str) -> J {
